@@ -291,13 +291,25 @@ Section BRIDGE2.
   Lemma strs_eqb_refl l : strs_eqb l l = true.
   Proof. induction l as [|a l IH]; [reflexivity|]. cbn [strs_eqb]. now rewrite String.eqb_refl, IH. Qed.
   Lemma ev_json_path path g : EV (json_path_sql path) g =
-    match EV (Id "string") g, str_lits (map StrV path) with
+    match EV (Id "string") g, path_lits (map json_part path) with
     | Some (VStr s), Some p => Some (VStr (json_get s p)) | _, _ => None end.
   Proof.
     unfold json_path_sql. cbn [ev String.eqb Ascii.eqb Bool.eqb andb].
     destruct (match g with r :: _ => lookup "string" r | [] => None end) as [[z|s|q0|m|]|]; try reflexivity.
-    destruct (str_lits (map StrV path)) as [p|]; [|reflexivity].
+    destruct (path_lits (map json_part path)) as [p|]; [|reflexivity].
     now rewrite String.eqb_refl, strs_eqb_refl.
+  Qed.
+  (* the parts read back from the printed path are the parts of the oracle: a key as it is (a leading byte 0 doubled), an
+     index part (byte 0 + digits) through the bare number *)
+  Lemma path_lits_part l : path_lits (map json_part l) = Some l.
+  Proof.
+    induction l as [|a l IH]; [reflexivity|]. cbn [map]. unfold json_part at 1.
+    destruct a as [|ch0 dd0]; [cbn [path_lits key_lit]; now rewrite IH|].
+    destruct (Ascii.eqb_spec ch0 "000"%char) as [->|Hch0].
+    - destruct dd0 as [|ch1 dd1]; [cbn [path_lits]; now rewrite IH|].
+      destruct (Ascii.eqb_spec ch1 "000"%char) as [->|Hch1]; cbn [path_lits key_lit]; rewrite IH; [|reflexivity].
+      cbn [Ascii.eqb Bool.eqb]. reflexivity.
+    - cbn [path_lits key_lit]. rewrite IH. apply Ascii.eqb_neq in Hch0. now rewrite Hch0.
   Qed.
   Lemma ev_sep_json ls ps g :
     EV (Sep "" [Raw "mapFilter((k,v) -> v != '', mapFromArrays(["; Sep "," ls; Raw "], ["; Sep "," ps; Raw "]))"]) g =
@@ -318,7 +330,7 @@ Section BRIDGE2.
   Proof.
     intros Hs Hlen. unfold sql_json_parser. rewrite ev_sep_json, str_lits_strv.
     rewrite (map_opt_map_total json_path_sql _ (json_get line)).
-    2:{ intros p _. rewrite ev_json_path, str_lits_strv. cbn [ev]. now rewrite Hs. }
+    2:{ intros p _. rewrite ev_json_path, path_lits_part. cbn [ev]. now rewrite Hs. }
     rewrite map_length, Hlen, Nat.eqb_refl. reflexivity.
   Qed.
   Lemma ev_map_filter cl b g :
